@@ -99,6 +99,17 @@ def gen_case(rng, tier, g):
     nviews = 2 if rec.multi else 1
     if name in ('sort-of-sort',):
         nviews = 2
+    fork = None
+    if len(stack) == 1 and not rec.items and not rec.multi \
+            and name not in quar and name not in ('sort-of-sort',) \
+            and rng.random() < 0.15:
+        # sibling views over one (possibly stateful) base view: iterators
+        # over the base and over both derived views are interleaved
+        fork = []
+        for _ in range(2):
+            n2 = rng.choice(STACKABLE)
+            fork.append([n2, rng.randrange(len(RECIPES[n2].variants))])
+        nviews = 3
     shape = None
     if name in HOT and rng.random() < 0.35:
         shape = 'stagger'
@@ -106,9 +117,16 @@ def gen_case(rng, tier, g):
                                 ntasks=3 if shape == 'stagger' else None,
                                 maxsteps=40 if tier == 'quick' else 60,
                                 nrows_hint=max(nrows, 2))
-    return {'prop': PROP, 'stack': stack, 'tables': tables, 'steps': steps,
+    if rng.random() < 0.1:
+        # the view is dropped while iterators are alive
+        steps.insert(rng.randint(0, len(steps)),
+                     ['DROPVIEW', rng.randrange(nviews)])
+    case = {'prop': PROP, 'stack': stack, 'tables': tables, 'steps': steps,
             'shape': shape,
             'knobs': {'sort_buffersize': rng.choice([None, None, 2, 3])}}
+    if fork:
+        case['fork'] = fork
+    return case
 
 
 def _sig(case, v):
@@ -143,6 +161,9 @@ def run_case(case):
             try:
                 expected = solo_reference(e, stack, case['tables'],
                                           tempdir=sb.path)
+                if case.get('fork'):
+                    expected = expected[:1] + _fork_reference(
+                        e, stack, case, sb.path)
             except Exception as ex:
                 why = type(ex).__name__
             if why is not None:
@@ -154,6 +175,8 @@ def run_case(case):
                                extra={'group': group, 'why': why})
             log.add('expected', expected)
             w, views = build(e, stack, case['tables'], tempdir=sb.path)
+            if case.get('fork'):
+                views = views[:1] + _forks(e, w, views[0], case['fork'])
             sch = Sched(views, expected, log=log, items=is_items(stack))
 
             def after(s, op):
@@ -163,8 +186,9 @@ def run_case(case):
             try:
                 try:
                     sch.run(case['steps'])
-                    for vi in range(len(views)):
-                        sch.fresh(vi)
+                    for vi in range(len(sch.views)):
+                        if sch.views[vi] is not None:
+                            sch.fresh(vi)
                 except Violation as v:
                     result = outcome(
                         'violation', vclass=v.vclass, msg=label + ': ' + v.msg,
@@ -193,9 +217,42 @@ def run_case(case):
     probes['recipe:' + stack[0][0]] = 1
     if len(stack) > 1:
         probes['stacked'] = 1
+    if case.get('fork'):
+        probes['forked-sibling-views'] = 1
+    if any(op[0] == 'DROPVIEW' for op in case['steps']):
+        probes['view-dropped-mid-schedule'] = 1
     return outcome('ok', digest=log.hexdigest(), steps=nsteps,
                    states=sorted(states), nontrivial=nontrivial,
                    probes=probes, extra={'group': group})
+
+
+def _forks(e, w, base, fork):
+    from sim.viewcase import StageWorld
+    out = ()
+    for n2, v2 in fork:
+        r2 = RECIPES[n2]
+        out += (r2.variants[v2 % len(r2.variants)](e, StageWorld(w, base)),)
+    return out
+
+
+def _fork_reference(e, stack, case, tempdir):
+    """Solo pass over each derived view, each on a freshly built base."""
+    from sim.canon import canon_row
+    out = []
+    for i in range(len(case['fork'])):
+        w, views = build(e, stack, case['tables'], tempdir=tempdir)
+        try:
+            fv = _forks(e, w, views[0], case['fork'])[i]
+            rows = []
+            for r in iter(fv):
+                rows.append(canon_row(r))
+                if len(rows) > 5000:
+                    raise OverflowError('reference too long')
+            out.append(rows)
+        finally:
+            w.close()
+            del views
+    return out
 
 
 def warmup():
@@ -203,7 +260,16 @@ def warmup():
 
 
 def shrink_candidates(case):
-    return shrink_common(case)
+    import copy
+    if case.get('fork'):
+        c = copy.deepcopy(case)
+        del c['fork']
+        c['steps'] = [op for op in c['steps']
+                      if not (op[0] in ('ITER', 'DROPVIEW')
+                              and op[-1] > 0)]
+        yield c
+    for c in shrink_common(case):
+        yield c
 
 
 def selfcheck(agg):
